@@ -528,6 +528,20 @@ def flats : List Ty → Bool
   | t :: ts => flat t && flats ts
 end
 
+/-! ### time_point
+
+`Opm::time_point` counts milliseconds (`duration<int64_t, ratio<1,1000>>`), but
+`Packing<false,time_point>` writes `TimeService::to_time_t(data)` — `duration_cast<seconds>` —
+and reads back `from_time_t`.  Modelled for times at or after the epoch. -/
+
+def timeToTimeT (ms : Nat) : Nat := ms / 1000
+def timeFromTimeT (s : Nat) : Nat := s * 1000
+def packTime (ms : Nat) : Bytes := le 8 (timeToTimeT ms)
+def unpackTime (bs : Bytes) : Except Err (Nat × Bytes) :=
+  match rdNat 8 bs with
+  | .error e => .error e
+  | .ok (s, r) => .ok (timeFromTimeT s, r)
+
 /-- `Serializer::pack(x)` then `unpack(y)` with `y` fresh: the object read back and the
 final `position()`. -/
 def roundTrip (t : Ty) (v : Val) : Except Err (Val × Nat) :=
